@@ -235,7 +235,9 @@ def build_pipeline(prog: dict, order: list[int] | None = None, **pipeline_kw):
         if f.get("spec") is not None:
             kw["mapspec"] = ref.canonical_str(f["spec"])
         if f.get("internal") and not f.get("internal_via_map") and f.get("spec") is not None:
-            kw["internal_shape"] = tuple(f["internal"])
+            # (one internal axis may be declared as a bare int, which the API allows)
+            kw["internal_shape"] = f["internal"][0] if len(f["internal"]) == 1 and f.get("internal_bare_int") \
+                else tuple(f["internal"])
         if f.get("defaults"):
             kw["defaults"] = dict(f["defaults"])
         if f.get("bound"):
